@@ -100,11 +100,18 @@ func JsonToSexp(json []byte, env *Zlisp) (Sexp, error) {
 
 // sexp -> json
 func SexpToJson(exp Sexp) string {
+	return sexpToJson(exp, make(map[interface{}]bool))
+}
+
+// inProgress holds the hashes and arrays on the current encoding
+// path: a value that contains itself cannot be encoded, and walking
+// it would recurse until the Go stack overflows.
+func sexpToJson(exp Sexp, inProgress map[interface{}]bool) string {
 	switch e := exp.(type) {
 	case *SexpHash:
-		return e.jsonHashHelper()
+		return e.jsonHashHelper(inProgress)
 	case *SexpArray:
-		return e.jsonArrayHelper()
+		return e.jsonArrayHelper(inProgress)
 	case *SexpSymbol:
 		return `"` + e.name + `"`
 	default:
@@ -112,7 +119,13 @@ func SexpToJson(exp Sexp) string {
 	}
 }
 
-func (hash *SexpHash) jsonHashHelper() string {
+func (hash *SexpHash) jsonHashHelper(inProgress map[interface{}]bool) string {
+	if inProgress[hash] {
+		panic(fmt.Errorf("cannot encode a value that contains itself"))
+	}
+	inProgress[hash] = true
+	defer delete(inProgress, hash)
+
 	str := fmt.Sprintf(`{"Atype":"%s", `, hash.TypeName)
 
 	ko := []string{}
@@ -127,7 +140,7 @@ func (hash *SexpHash) jsonHashHelper() string {
 		val, err := hash.HashGet(nil, key)
 		if err == nil {
 			str += `"` + keyst + `":`
-			str += string(SexpToJson(val)) + `, `
+			str += string(sexpToJson(val, inProgress)) + `, `
 		} else {
 			panic(err)
 		}
@@ -146,14 +159,20 @@ func (hash *SexpHash) jsonHashHelper() string {
 	return str
 }
 
-func (arr *SexpArray) jsonArrayHelper() string {
+func (arr *SexpArray) jsonArrayHelper(inProgress map[interface{}]bool) string {
+	if inProgress[arr] {
+		panic(fmt.Errorf("cannot encode a value that contains itself"))
+	}
+	inProgress[arr] = true
+	defer delete(inProgress, arr)
+
 	if len(arr.Val) == 0 {
 		return "[]"
 	}
 
-	str := "[" + SexpToJson(arr.Val[0])
+	str := "[" + sexpToJson(arr.Val[0], inProgress)
 	for _, sexp := range arr.Val[1:] {
-		str += ", " + SexpToJson(sexp)
+		str += ", " + sexpToJson(sexp, inProgress)
 	}
 	return str + "]"
 }
